@@ -56,6 +56,18 @@ def step (s : State) (j : Json) : Except String (State × Json × List Fired) :=
     if !iacc && ok then
       fired := fired ++ [{ name := "reachable_state_rejected_as_genesis", detail := mkObj [("err", (out.getObjVal? "err").toOption.getD Json.null)] }]
     return (s, mkObj [("accepted", jb ok), ("err", (out.getObjVal? "err").toOption.getD Json.null)], fired)
+  if op == "importBalance" then
+    -- `InitGenesis` on a branch whose module account holds what `balance` says: accepted exactly when that IS the escrow
+    let esc ← jnatList j "escrowed"
+    let bal ← jnatList j "balance"
+    let ok := importBacked esc bal
+    let iacc ← jbool out "accepted"
+    let mut fired : List Fired := []
+    if iacc && !ok then
+      fired := fired ++ [{ name := "unbacked_genesis_imported", detail := mkObj [("escrowed", jl (esc.map jn)), ("balance", jl (bal.map jn))] }]
+    if !iacc && ok then
+      fired := fired ++ [{ name := "backed_genesis_refused", detail := mkObj [("escrowed", jl (esc.map jn))] }]
+    return (s, mkObj [("accepted", jb ok)], fired)
   let (s', e) ← match op with
     | "create" => do pure (createOp s (← jnat j "acct") (← parseCoins s j "amt"))
     | "deposit" => do pure (depositOp s (← jnat j "tid") (← jnat j "acct") (← parseCoins s j "amt"))
